@@ -112,6 +112,9 @@ def main():
     mod = load(prop)
     run = core.Run(prop, a.tier, seed)
     try:
+        if prop != "C20" and os.environ.get("VERIF_PRELUDE", "1") != "0":
+            from harness import pollute
+            run.aux["prelude_calls_of_other_entry_points"] = pollute.run()
         mod.run(run)
         if prop in OWNERS:
             exports_check(run, prop)
